@@ -6,7 +6,7 @@ from .framework import run_check
 def registry():
     from . import props_reduce as pr
 
-    return {"C01": pr.C01}
+    return {"C01": pr.C01, "C02": pr.C02}
 
 
 def main():
